@@ -1,3 +1,4 @@
 //! shared helpers for the verification harness binaries
+pub mod monitor;
 pub mod tracesink;
 pub mod treedump;
